@@ -7,6 +7,7 @@ CONSTANTS
   Sp0 = 2
   AllowExcl = TRUE
   AllowCat3 = FALSE
+  AllowReuse = FALSE
   AllowFindings = FALSE
 INVARIANT InvToldIsActual
 INVARIANT InvAddAligned
